@@ -767,6 +767,8 @@ func Check(r *ev.Run, replay string) {
 	}
 	longLists(r, doms[0], &t, r.Thorough())
 	dbg("long lists")
+	literalFamily(r, &t)
+	dbg("literals")
 	r.Set("states", t.states)
 	r.Set("transitions", t.transitions)
 	r.Set("traces_validated_against_impl", t.validated)
